@@ -18,7 +18,8 @@ PROPERTY = "C06"
 LEVEL = "exploration"
 RULE = (
     "one case = one seeded write-group session (format, pre-populated revisions, inserted range, withheld record, "
-    "outcome path abort|commit|commit-with-withheld|suspend/resume..., optional injected transport error); "
+    "outcome path abort|commit|commit-with-withheld|suspend/resume...|resume with a stale token after good ones then an "
+    "unrelated write group|revision record only into a stacked 2a repository, optional injected transport error); "
     "non-trivial = at least one record stream was inserted and the session took a path other than plain commit; "
     "distinct = distinct event-log digests of such runs"
 )
@@ -28,6 +29,8 @@ COMPONENTS = {
     "stub": ["UI", "source repository on a second store, fault-free"],
 }
 ASSUMPTIONS = [
+    "a token list whose last token cannot be resumed (garbage name, token of an aborted group, name of a published pack) must make resume_write_group raise; whether the good tokens' upload files survive that failure is not judged (probed), only that their data never becomes visible or listed",
+    "stacked 2a target for the revision-record-only shape = a branch stacked (sprout --stacked) on the source branch, opened with its fallback",
     "leftovers under upload/ after abort or suspend are allowed (they are not listed)",
     "a withheld record counts as required only if it is an inventory/chk/text record of a revision that is new to the target; when the repository nevertheless commits, the check requires every listed revision to be fully readable (otherwise the commit accepted an incomplete write group)",
 ]
@@ -56,6 +59,9 @@ PATHS = [
     "multi_round_abort",
     "abort_fault_reuse",
     "abort_fault_reuse",
+    "bad_token_resume",
+    "bad_token_resume",
+    "fallback_only_revision",
 ]
 
 
@@ -79,7 +85,19 @@ def generate(rng, tier):
         "nth_delete": rng.randint(1, 14),
         "reuse_inserts": rng.random() < 0.5,
     }
-    if plan["path"] == "abort_fault_reuse":
+    # round-2 paths: (a) resume with a token list whose last token is stale/garbage after
+    # 1-2 good ones, then an unrelated ordinary write group on the same object; (b) a
+    # stacked 2a target receives ONLY the revision record of a revision whose inventory,
+    # chk pages and texts live in the fallback
+    mh_u = MHist()
+    plan["unrelated"] = gen_chain(rng, mh_u, None, 1, "u")
+    plan["stale"] = rng.choice(["garbage", "aborted", "committed"])
+    plan["ngroups"] = rng.choice([1, 2, 2])
+    plan["via_suspend"] = rng.random() < 0.4
+    plan["rev_pick"] = rng.randrange(1000)
+    if plan["path"] == "fallback_only_revision":
+        plan["fmt"] = "2a"
+    if plan["path"] in ("abort_fault_reuse", "bad_token_resume", "fallback_only_revision"):
         return plan
     if rng.random() < 0.3:
         plan["faults"] = [{"kind": "err_before", "at": rng.randint(1, 30), "count": "mut", "err": rng.choice(["transport", "enospc", "permission"])}]
@@ -196,6 +214,10 @@ def execute(sim, plan):
             sim.fail("content", ["content", kindsig, f"{tag}:check"], prob)
 
     kindsig = "err_before" if plan.get("faults") else "none"
+    if path in ("bad_token_resume", "fallback_only_revision"):
+        _round2_paths(sim, plan, path, url_s, url_t, mh, main, before, open_pair, stream_for, expect_unchanged, kindsig)
+        sim.state_seen((fmt, path, plan["pre"], plan.get("stale"), plan.get("ngroups"), plan.get("via_suspend")))
+        return
     if path.startswith("multi_round") or path == "abort_fault_reuse":
         _special_paths(sim, plan, path, open_pair, stream_for, expect_unchanged, expect_complete, kindsig)
         sim.state_seen((fmt, path, plan["pre"], kindsig))
@@ -492,3 +514,220 @@ def _special_paths(sim, plan, path, open_pair, stream_for, expect_unchanged, exp
 
 def diff_visible_keys(plan, now, expect_unchanged):
     expect_unchanged("abort-under-delete-error-then-next-write-group")
+
+
+def _round2_paths(sim, plan, path, url_s, url_t, mh, main, before, open_pair, stream_for, expect_unchanged, kindsig):
+    from breezy import errors
+
+    fmt = plan["fmt"]
+    if path == "fallback_only_revision":
+        _fallback_only_revision(sim, plan, url_s, url_t, mh, main)
+        return
+    # ---- bad_token_resume
+    unrelated = plan["unrelated"]
+    ub = storesim.make_branch(url_s + "u", fmt)
+    storesim.commit_specs(ub, unrelated)
+    del ub
+    mh_all = replay_model(plan["src"] + unrelated)
+    tgt, srcr = open_pair()
+    sink = tgt._get_sink()
+    tgt.lock_write()
+    srcr.lock_read()
+    in_group = False
+
+    def insert(items):
+        grouped = []
+        for kind, rec in items:
+            if grouped and grouped[-1][0] == kind:
+                grouped[-1][1].append(rec)
+            else:
+                grouped.append((kind, [rec]))
+        sink.insert_stream_without_locking(iter([(k, iter(r)) for k, r in grouped]), srcr._format, False)
+
+    def reopen_target():
+        nonlocal tgt, sink
+        tgt.unlock()
+        storesim.clear_caches()
+        tgt = storesim.open_repo(tgt.user_url)
+        sink = tgt._get_sink()
+        tgt.lock_write()
+
+    try:
+        tgt.start_write_group()
+        in_group = True
+        _source, st = stream_for(tgt, srcr)
+        flat = [(kind, rec) for kind, sub in st for rec in list(sub)]
+        if not flat:
+            tgt.abort_write_group()
+            in_group = False
+            return
+        two = plan["ngroups"] == 2 and len(flat) > 1
+        cut = 1 + plan["splits"][0] % (len(flat) - 1) if two else len(flat)
+        insert(flat[:cut])
+        tokens = tgt.suspend_write_group()
+        in_group = False
+        if two:
+            reopen_target()
+            tgt.resume_write_group(tokens)
+            in_group = True
+            insert(flat[cut:])
+            tokens = tgt.suspend_write_group()
+            in_group = False
+        sim.probe("suspended")
+        sim.event("suspended", len(tokens))
+        if len(tokens) > 1:
+            sim.probe("multiple_resume_tokens")
+        expect_unchanged("suspend")
+        # a token that can no longer be resumed
+        if plan["stale"] == "garbage":
+            stale = "0123456789abcdef0123456789abcdef"
+        else:
+            reopen_target()
+            tgt.start_write_group()
+            in_group = True
+            insert(flat[:1])
+            stale = tgt.suspend_write_group()[0]
+            tgt.resume_write_group([stale])
+            if plan["stale"] == "aborted":
+                tgt.abort_write_group()
+            else:
+                # "committed by someone else": an empty-history record only; abort keeps the
+                # repository as it was, then the name is reused as a token of a published pack
+                tgt.abort_write_group()
+                with_names = sorted(tgt._pack_collection.names())
+                stale = with_names[0] if with_names else stale
+            in_group = False
+        sim.event("stale-token", plan["stale"])
+        # the token list reaches a fresh process (as a smart-server request would)
+        reopen_target()
+        good = list(tokens)
+        raised = None
+        try:
+            tgt.resume_write_group(good + [stale])
+            in_group = True
+        except errors.UnresumableWriteGroup as e:
+            raised = e
+        except SimCrash:
+            raise
+        except Exception as e:  # noqa: BLE001
+            raised = e
+            sim.event("resume-raised", type(e).__name__)
+        sim.nontrivial = True
+        if raised is None:
+            tgt.abort_write_group(suppress_errors=True)
+            in_group = False
+            sim.fail("bad_token", ["bad_token", fmt, "resume-accepted-unresumable-token:" + plan["stale"]], f"resume_write_group({good + [stale]}) did not raise although {stale!r} ({plan['stale']}) cannot be resumed")
+        sim.probe("bad_token_resume_refused")
+        # the same object: no write group, nothing of the suspended data visible
+        if tgt.is_in_write_group():
+            sim.fail("bad_token", ["bad_token", fmt, "still-in-write-group-after-failed-resume"], f"after the failed resume ({type(raised).__name__}) the repository object still reports an open write group")
+        same = {"revs": sorted(tgt.all_revision_ids())}
+        for name in ("revisions", "inventories", "texts", "signatures", "chk_bytes"):
+            vf = getattr(tgt, name, None)
+            same[name] = sorted(vf.keys()) if vf is not None else None
+        leaked = [k for k in same if same[k] != before[k]]
+        if leaked:
+            extra = sorted(set(same[leaked[0]]) - set(before[leaked[0]]))[:4]
+            sim.fail("invisible", ["invisible", "none", "failed-resume:same-object-sees-suspended-data"], f"after resume_write_group failed ({type(raised).__name__}: {raised}) the same repository object, with no write group open, sees suspended data in {leaked}: e.g. {extra}")
+        # an unrelated ordinary write group on the same object
+        usrc = storesim.open_repo(url_s + "u")
+        utip = unrelated[-1]["id"].encode()
+        with usrc.lock_read():
+            search = tgt.search_missing_revision_ids(usrc, revision_ids=[utip])
+            tgt.start_write_group()
+            in_group = True
+            sink.insert_stream_without_locking(usrc._get_source(tgt._format).get_stream(search), usrc._format)
+            tgt.commit_write_group()
+            in_group = False
+        sim.probe("unrelated_group_committed_after_failed_resume")
+    finally:
+        sim.disarm()
+        try:
+            if in_group and tgt.is_in_write_group():
+                tgt.abort_write_group(suppress_errors=True)
+        except Exception:  # noqa: BLE001
+            pass
+        for r in (srcr, tgt):
+            try:
+                r.unlock()
+            except Exception:  # noqa: BLE001
+                pass
+    # a fresh opener: only the unrelated revision was added
+    now = visible(tgt.user_url)
+    want = sorted(before["revs"] + [utip])
+    if now["revs"] != want:
+        sim.fail("invisible", ["invisible", "none", "failed-resume:suspended-data-published-by-next-write-group"], f"after a failed resume and an unrelated write group a fresh process lists {now['revs']}, expected {want} (tokens {good}, stale {stale!r})")
+    storesim.clear_caches()
+    repo = storesim.open_repo(tgt.user_url)
+    with repo.lock_read():
+        prob = storesim.readable(repo, mh_all, None)
+        names = set(repo._pack_collection.names())
+    if prob:
+        sim.fail("content", ["content", "none", "failed-resume:unreadable"], prob)
+    prob = storesim.check_clean(repo)
+    if prob:
+        sim.fail("content", ["content", "none", "failed-resume:check"], prob)
+    published = [t for t in good if t in names or (t + ".pack") in now["packs"]]
+    if published:
+        sim.fail("invisible", ["invisible", "none", "failed-resume:suspended-pack-published"], f"suspended packs {published} are listed in pack-names / present in packs/ although their write group was never committed")
+    rt = raw(repo.control_transport)
+    kept = [t for t in good if rt.has("upload/" + t + ".pack")]
+    sim.probe("suspended_packs_kept_in_upload" if len(kept) == len(good) else "suspended_packs_removed_by_failed_resume")
+
+
+def _fallback_only_revision(sim, plan, url_s, url_t, mh, main):
+    """A 2a repository stacked on the source receives ONLY the revision record of a
+    revision whose inventory, chk pages and texts exist in the fallback: commit_write_group
+    must refuse and leave the stacked repository as it was."""
+    from breezy.transport import get_transport
+
+    sb = storesim.open_branch(url_s + "s")
+    pre_rev = main[plan["pre"] - 1]["id"].encode() if plan["pre"] else main[0]["id"].encode()
+    get_transport(url_t).ensure_base()
+    sb.controldir.sprout(url_t + "stk", revision_id=pre_rev, stacked=True, source_branch=sb)
+    del sb
+    url = url_t + "stk"
+    before = visible(url)
+    later = [s_["id"] for s_ in main if s_["id"].encode() not in before["revs"]]
+    pick = later[plan["rev_pick"] % len(later)].encode() if later else pre_rev
+    storesim.clear_caches()
+    tgt = storesim.open_branch(url).repository
+    srcr = storesim.open_repo(url_s + "s")
+    if not tgt._fallback_repositories:
+        raise RuntimeError("stacked target has no fallback")
+    tgt.lock_write()
+    srcr.lock_read()
+    accepted = False
+    refused = None
+    try:
+        tgt.start_write_group()
+        tgt.revisions.insert_record_stream(srcr.revisions.get_record_stream([(pick,)], "unordered", True))
+        sim.nontrivial = True
+        sim.event("revision-record-only", pick.decode())
+        try:
+            if plan["via_suspend"]:
+                tokens = tgt.suspend_write_group()
+                sim.probe("suspended")
+                tgt.resume_write_group(tokens)
+            tgt.commit_write_group()
+            accepted = True
+        except SimCrash:
+            raise
+        except Exception as e:  # noqa: BLE001
+            refused = e
+            if tgt.is_in_write_group():
+                tgt.abort_write_group(suppress_errors=True)
+    finally:
+        for r in (srcr, tgt):
+            try:
+                r.unlock()
+            except Exception:  # noqa: BLE001
+                pass
+    now = visible(url)
+    d = diff_visible(before, now)
+    if accepted:
+        sim.fail("refuse_incomplete", ["refuse_incomplete", "withheld", "2a-stacked:revision-record-only"], f"commit_write_group of a stacked 2a repository accepted revision {pick!r} although only its revision record was inserted (inventory, chk pages and texts exist only in the fallback); the repository itself now lists revisions {now['revs']} with inventories {now['inventories']}")
+    sim.probe("revision_record_only_refused")
+    sim.event("refused", type(refused).__name__)
+    if d:
+        sim.fail("invisible", ["invisible", "none", f"refused-commit-stacked:{','.join(d)}"], f"after the refused commit the stacked repository differs in {d}")
